@@ -221,13 +221,22 @@ def run_injector(case, ctx):
         data = big[::2, ::2]
     elif layout == "indexed_frame":
         data.index = ["r%d" % i for i in range(n)]
-    for _ in range(4):
-        lo = int(rng.integers(0, n + 1))
-        hi = int(rng.integers(lo, n + 1))
-        before = snapshot(data)
-        ok = c20.check_one(name, cont, data, cls, tcol, fcols, lo, hi, rng, ctx, case)
+    # one injector object serves all calls, on this data set and on one of the other container type in turn
+    inj = c20.mon(name)
+    other_cont = "DataFrame" if cont == "ndarray" else "ndarray"
+    odata, ocls, otcol, ofcols = c20.make_data(rng, int(rng.integers(6, 30)), other_cont)
+    for r in range(6):
+        use_other = r % 2 == 1
+        D, C, T, F, CT = (odata, ocls, otcol, ofcols, other_cont) if use_other else (data, cls, tcol, fcols, cont)
+        m = len(D)
+        lo = int(rng.integers(0, m + 1))
+        hi = int(rng.integers(lo, m + 1))
+        if name == "FeatureCoverInjector":
+            lo, hi = 0, m
+        before = snapshot(D)
+        ok = c20.check_one(name, CT, D, C, T, F, lo, hi, rng, ctx, case, inj=inj)
         ctx.count("injector_calls_checked")
-        if not same(snapshot(data), before):
+        if not same(snapshot(D), before):
             ctx.violation("C15/injector/%s/input_modified/%s" % (name, layout), "%s modified its %s input" % (name, layout), injector=name, layout=layout)
             return
         if not ok:
